@@ -178,9 +178,13 @@ class TcRef(Ref):
             if s2 is not None:
                 return ("ok", s2, "edge of the TLC graph")
             return ("fail", None, "not an edge of the TLC graph")
-        # affinity: legality is soft, oversubscription is hard
+        # affinity: an event the model enables must be accepted - except the remote affinity that names the CPU its target is
+        # already bound to, which the tree refuses ("cannot modify dirty channel" / "same value": observed, not judged);
+        # events the model does not enable are observed only; oversubscription is always refused
         if s2 is not None:
-            return ("soft", s2, "model enables it")
+            if op == "R" and cpu[L.tnames.index(label[2])] == label[3]:
+                return ("soft", s2, "remote affinity onto the CPU the thread is on")
+            return ("ok", s2, "affinity change enabled by the model")
         if op == "s":
             t, c = label[1], label[2]
             i = L.tnames.index(t)
@@ -352,7 +356,9 @@ def run(prop, tier):
             plan = [("A2", (1,), 2), ("P2", (1,), 1), ("A2c1", (1,), 1)] if tier == "quick" else \
                    [("A2", (1, 0), 3), ("P2", (1,), 2), ("A3", (1,), 2), ("AB", (1,), 2), ("A2c1", (1,), 2)]
         else:
-            plan = [("A2", (1, 0), 2), ("A2c1", (1,), 2)] if tier == "quick" else [("A3", (1, 0), 2), ("AB", (1, 0), 2), ("A2c1", (1, 0), 3)]
+            # P2: the two threads belong to two processes of the loom (PID rows, remote affinity across processes)
+            plan = [("A2", (1, 0), 2), ("P2", (1,), 2), ("A2c1", (1,), 2)] if tier == "quick" else \
+                   [("A3", (1, 0), 2), ("P2", (1, 0), 2), ("AB", (1, 0), 2), ("A2c1", (1, 0), 3)]
         from lib import catalog
         cat = catalog.load_events()
         allreq = {m: d["version"] for m, d in cat.items()}
@@ -397,7 +403,7 @@ def run(prop, tier):
                            "OH*/OA* alphabet (all threads x all CPUs of the loom + virtual + a non-existent CPU, all remote targets, "
                            "finish with and without lint) is probed there; distinct = (model state, implementation hash) pairs")
         ctx.cov["distinct_nontrivial"] = ctx.cov["states"]
-        ctx.assumptions += ["affinity-event legality is observed, not judged (soft guard); only its effects and oversubscription are checked",
+        ctx.assumptions += ["an affinity event the model enables must be accepted (only a remote affinity onto the CPU its target is already on is observed, not judged); events it does not enable are observed; effects and oversubscription are checked",
                             "execute of a dead thread is outside the quantified space",
                             "configurations: <=3 threads, <=2 looms, <=2 physical CPUs per loom"]
         from checks import soak
